@@ -305,8 +305,6 @@ def install_clock(impl):
         return
     import asyncfix.codec as cmod
 
-    real = impl._saved[2]                      # the staticmethod object sess_common saved
-
     class FakeDateTime(_dtmod.datetime):
         @classmethod
         def utcnow(cls):
@@ -317,17 +315,16 @@ def install_clock(impl):
             return impl.c06_dt
 
     impl.c06_dt = ROW_TIME
-    impl.c06_clock = (cmod, cmod.datetime, impl.Codec.__dict__["current_datetime"])
-    impl.Codec.current_datetime = real
+    # sess_common (since round 5) already lets the real method run against its own fake clock; C06 replaces that
+    # clock by one with a free date and microseconds
+    impl.c06_clock = (cmod, cmod.datetime)
     cmod.datetime = FakeDateTime
-    assert impl.Codec.current_datetime() == S.stamp(T0), (impl.Codec.current_datetime(), S.stamp(T0))
 
 
 def remove_clock(impl):
     if getattr(impl, "c06_clock", None):
-        cmod, dt, stub = impl.c06_clock
+        cmod, dt = impl.c06_clock
         cmod.datetime = dt
-        impl.Codec.current_datetime = stub
         impl.c06_clock = None
 
 
